@@ -39,6 +39,18 @@ class Opaque(ast.expr):
         return f"<child {self.k}>"
 
 
+class OpaqueStmt(ast.stmt):
+    """An opaque child statement: executing it yields a completion (normal / break / continue / return v / raise)."""
+    _fields = ("k",)
+
+    def __init__(self, k, lineno=1, col_offset=0):
+        self.k = k
+        self.lineno = lineno
+        self.col_offset = col_offset
+        self.end_lineno = lineno
+        self.end_col_offset = col_offset
+
+
 class EStr:
     """A str value built from pieces (constants and str-typed opaque terms); concatenation is associative."""
 
@@ -109,7 +121,7 @@ class EffectInterp(Interpreter):
         self.internal_classes = set()  # names of interpreter-internal classes: opaque values are never instances
         self.builtins.update({"setattr": lambda i, o, n, v: i.setattr_(o, n, v), "iter": lambda i, x: i.prim_iter(x),
                               "slice": lambda i, *a: ("slice",) + tuple(a), "repr": _b_repr_eff, "ascii": _b_ascii_eff,
-                              "callable": _b_callable_eff, "format": _b_format_eff, "len": _b_len_eff})
+                              "callable": _b_callable_eff, "format": _b_format_eff, "len": _b_len_eff, "type": _b_type_eff})
         self.type_ctors = {"str": _b_str_eff, "tuple": _b_tuple_eff, "set": _b_set_eff}
 
     # ------------------------------------------------------------------------------------------------
@@ -205,6 +217,87 @@ class EffectInterp(Interpreter):
     def Ev(self, node):
         """Induction hypothesis: evaluating an opaque child."""
         return self.prim(f"Ev[{node.k}]", [], "obj")
+
+    def ExS(self, node):
+        """Induction hypothesis for a child statement: returns ('normal'|'break'|'continue'|'return', value)."""
+        w = self.world
+        v = self.prim(f"Ex[{node.k}]", [], "obj")  # raises if the statement raises
+        kind = z3.Function(f"Ex[{node.k}].completion", WorldS, z3.IntSort())(w)
+        allowed = getattr(self, "allowed_completions", ("normal", "break", "continue", "return"))
+        names = ["normal", "break", "continue", "return"]
+        for i, n in enumerate(names[:-1]):
+            if n in allowed:
+                if self.eng.branch(kind == i, f"Ex[{node.k}]#{self.nprims}={n}"):
+                    return n, None
+            else:
+                self.eng.assume(kind != i)
+        if "return" not in allowed:
+            raise OutOfReach("no completion kind left")
+        return "return", v
+
+    LOOP_BOUND = 2
+
+    def ex_While(self, node, env):
+        """while loops whose test is an opaque truth value are explored for at most LOOP_BOUND iterations (shape
+        bound: afterwards the test is assumed false)."""
+        from .interp import _Break, _Continue
+        n = 0
+        while True:
+            t = self.truth(self.ev(node.test, env))
+            if isinstance(t, bool):
+                cont = t
+                if cont and n > 64:
+                    raise OutOfReach("concrete while loop does not terminate")
+            elif n >= self.LOOP_BOUND:
+                self.eng.assume(z3.Not(t))
+                cont = False
+            else:
+                cont = self.eng.branch(t, f"L{node.lineno}while{n}")
+            if not cont:
+                self.exec_block(node.orelse, env)
+                return
+            n += 1
+            try:
+                self.exec_block(node.body, env)
+            except _Break:
+                return
+            except _Continue:
+                continue
+
+    def exc_matches(self, e, spec):
+        if isinstance(spec, tuple):
+            return any(self.exc_matches(e, s_) for s_ in spec)
+        if isinstance(e, OpaqueExc):
+            name = getattr(spec, "name", None)
+            if name in ("BaseException",):
+                return True
+            if name == "Exception":
+                if getattr(self, "user_exceptions_derive_from_Exception", True):
+                    return True
+                return self.eng.branch(z3.Function("derives_from_Exception", ObjS, B)(e.term), "exc.isException")
+            if name is not None:
+                return self.eng.branch(z3.Function(f"exc_isinstance.{name}", ObjS, B)(e.term), f"exc.is{name}")
+            if self.is_opaque(spec):
+                return self.eng.branch(z3.Function("isinstance_of", ObjS, ObjS, B)(e.term, spec.t), "exc.isinstance")
+        return super().exc_matches(e, spec)
+
+    def ex_Raise(self, node, env):
+        if node.exc is None:
+            return super().ex_Raise(node, env)
+        e = self.ev(node.exc, env)  # evaluated exactly once
+        if self.is_opaque(e) or isinstance(e, OpaqueExc):
+            t = e.t if self.is_opaque(e) else e.term
+            if node.cause is not None:
+                c = self.ev(node.cause, env)
+                t = z3.Function("with_cause", ObjS, ObjS, ObjS)(t, self.obj(c))
+            raise Raised(OpaqueExc(t))
+        if isinstance(e, (PyTypeTok, ClassRec)):
+            e = self.call(e, [], {})
+        if not isinstance(e, ExcVal):
+            raise OutOfReach(f"raise of {e!r}")
+        if node.cause is not None:
+            e.cause = self.ev(node.cause, env)
+        raise Raised(e)
 
     # ------------------------------------------------------------------------------------------------
     # operations on opaque values
@@ -475,6 +568,11 @@ class EffectInterp(Interpreter):
         return EStr([r.t])
 
     def isinstance_(self, v, cls):
+        if self.is_opaque(v) and getattr(cls, "name", None) == "tuple" and getattr(self, "opaque_values_are_not_tuples", False):
+            return False
+        if isinstance(v, ExcVal) and self.is_opaque(cls):
+            t = v.term if isinstance(v, OpaqueExc) else self.exc_term(v)
+            return self.eng.branch(z3.Function("isinstance_of", ObjS, ObjS, B)(t, cls.t), "exc.isinstance")
         if self.is_opaque(v):
             if isinstance(cls, tuple):
                 rs = [self.isinstance_(v, c) for c in cls]
@@ -555,6 +653,12 @@ def _b_repr_eff(interp, v):
     if interp.is_opaque(v) or isinstance(v, EStr):
         return EStr([interp.prim("repr", [v]).t])
     return repr(v)
+
+
+def _b_type_eff(interp, v):
+    if interp.is_opaque(v):
+        return SV(z3.Function("type_of", ObjS, ObjS)(v.t))  # pure
+    return interp.type_of(v)
 
 
 def _b_len_eff(interp, v):
